@@ -77,8 +77,19 @@ def check_proofs(prop):
         res["detail"] = "no Props/%s.v" % prop
         return res
     text = strip_comments(open(props_v).read())
-    thms = re.findall(r"^\s*Theorem\s+(\w+)", text, re.M)
-    exs = re.findall(r"^\s*Example\s+(\w+)", text, re.M)
+    thms, exs, mods = [], [], []
+    for line in text.split("\n"):
+        m = re.match(r"\s*Module\s+(\w+)\s*\.", line)
+        if m:
+            mods.append(m.group(1))
+            continue
+        m = re.match(r"\s*End\s+(\w+)\s*\.", line)
+        if m and mods and mods[-1] == m.group(1):
+            mods.pop()
+            continue
+        m = re.match(r"\s*(Theorem|Example)\s+(\w+)", line)
+        if m:
+            (thms if m.group(1) == "Theorem" else exs).append(".".join(mods + [m.group(2)]))
     res["theorems"] = thms
     res["obligations"] = len(thms)
     bad = scan_forbidden()
@@ -112,6 +123,17 @@ def check_proofs(prop):
     res["discharged"] = len(thms)
     res["ok"] = True
     return res
+
+
+def run_coqchk(prop):
+    """thorough tier: re-check the compiled closure of Props/Cxx.vo with the independent checker and list its axioms"""
+    rc, out, err = vlib.run(["coqchk", "-o", "-silent"] + vlib.qflags() + ["Props." + prop], cwd=vlib.COQ_WORK, timeout=3000)
+    text = out + err
+    m = re.search(r"\* Axioms:\s*(.*?)\n\s*\n", text, re.S)
+    axioms = (m.group(1).strip() if m else "?")
+    ok = rc == 0 and axioms == "<none>" and "type-in-type: <none>" in text and "unsafe (co)fixpoints: <none>" in text \
+        and "positivity is assumed: <none>" in text
+    return ok, axioms, text[-1200:]
 
 
 def load_known():
@@ -185,6 +207,12 @@ def main():
     proof = check_proofs(prop) if tr_ok else dict(ok=False, obligations=0, discharged=0, theorems=[], detail="Gen/*.v not regenerated")
     if not proof["ok"]:
         problems.append(("proof", proof["detail"]))
+    chk_info = None
+    if tier == "thorough" and proof["ok"]:
+        ok_chk, axioms, tail = run_coqchk(prop)
+        chk_info = dict(coqchk_ok=ok_chk, coqchk_axioms=axioms)
+        if not ok_chk:
+            problems.append(("coqchk", "coqchk -o on Props.%s: axioms = %s\n%s" % (prop, axioms, tail)))
     corr_ok_build, corr_out = (vlib.coq_make(["Corr/%s.vo" % prop]) if tr_ok else (False, "Gen/*.v not regenerated"))
     if not corr_ok_build:
         problems.append(("model-build", "make Corr/%s.vo failed: %s" % (prop, corr_out[-1500:])))
@@ -323,6 +351,8 @@ def main():
     )
     cov["phase_seconds"] = dict(prepare=round(t_prep, 1), harness_and_coq_eval=round(t_eval, 1))
     cov.update(extra_cov or {})
+    if chk_info:
+        cov.update(chk_info)
     ev = dict(property_id=prop, tier=tier, seed=seed, level="proof", coverage=cov,
               assumptions=getattr(mod, "ASSUMPTIONS", []), wall_s=round(time.time() - t0, 2), violations=violations)
     vlib.write_json(os.path.join(vlib.ROOT, "evidence", prop + ".json"), ev)
